@@ -2,6 +2,8 @@ import CogentModel.Json
 import CogentModel.Model.AtomicWrite
 import CogentModel.Model.Composable
 import CogentModel.Model.StoreWrite
+import CogentModel.Model.AtomicProg
+import CogentModel.Gen.C19Program
 import Driver.C14Codec
 open CogentModel CogentModel.AtomicWrite
 
@@ -88,6 +90,24 @@ def handle (cmd : String) (j : J) : Except String J :=
     let r := exec fs (programTmp c cl)
     pure (.obj [("prog", .arr ((programTmp c cl).map fun i => callJ c i.call)), ("dest", nodeJ (r.1 c.dest)),
                 ("caller_file_kept", .bool ((r.1 precious).isSome)), ("error", .bool r.2.isSome)])
+  | "gen_run" => do
+    -- the program TRANSLATED from util/io.py (Gen/C19Program.lean) under Python's with-statement protocol:
+    -- own = false: the tmpdir= route; k = null: no fault, k = n: call n raises
+    let c ← parseCfg (← j.get "cfg")
+    let own ← (← j.get "own").toBool
+    let f ← match ← j.get "k" with
+      | .null => pure none
+      | x => do pure (some (← x.toNat))
+    let r := AtomicProg.runWith Gen.C19Program.code c own f
+    pure (.obj [("trace", .arr (r.trace.map fun i => callJ c i.call)), ("raised", .bool r.raised)])
+  | "gen_fmtfail" => do
+    -- the translated program when the writer's own code raises after n chunks (no failing call)
+    let c ← parseCfg (← j.get "cfg")
+    let n ← (← j.get "n").toNat
+    let fs := initFS c (← parseNode (← j.get "dest"))
+    let r := AtomicProg.runWithBody Gen.C19Program.code c true (AtomicProg.fmtFailBody c n) none
+    pure (.obj [("trace", .arr (r.trace.map fun i => callJ c i.call)), ("raised", .bool r.raised),
+                ("state", stateJ c (exec fs r.trace).1)])
   | "fine" => do
     -- record-granular resume: inputs [[m, ok?]], crash point (j, p); cells after the crash, after the re-run, uninterrupted
     let var ← match ← (← j.get "variant").toStr with
@@ -108,7 +128,10 @@ def handle (cmd : String) (j : J) : Except String J :=
     let slot : StoreWrite.Slot → J := fun
       | .absent => .str "absent" | .empty => .str "empty" | .full _ => .str "full"
     let cells : StoreWrite.FStore → J := fun s => .arr (ms.map fun (m : Nat) => .arr [.num (m : Int), slot (s m).data, slot (s m).nc, slot (s m).md5])
-    pure (.obj [("crash", cells s1), ("resumed", cells s2), ("uninterrupted", cells s3)])
+    -- does the write list translated from DataStoreDirectory._write give this variant's file operations (both kinds of result)?
+    let vs : List Composable.Val := [.ok ⟨1, 0, some 0⟩, .nc ⟨.error, 1, .exc 1, some 0⟩]
+    let genIs := vs.all fun v => StoreWrite.blockOfWrites v Gen.C19Program.storeWrites == some (StoreWrite.block var v)
+    pure (.obj [("crash", cells s1), ("resumed", cells s2), ("uninterrupted", cells s3), ("gen_is_variant", .bool genIs)])
   | "apply" => C14Codec.handleApply j
   | _ => throw s!"unknown command {cmd}"
 
